@@ -1399,3 +1399,70 @@ pub fn hypercube<S: crate::sch::Sch<Pt = Vec<<S as crate::sch::Sch>::F>>>(rec: &
         }
     }
 }
+
+/// Streaming KZG, SPACE-efficient prover (C01): commitment and opening computed from a coefficient stream with an MSM
+/// buffer of b entries, b in {1, 2, 3, 8, len - 1, len, 2^20} (the buffer bound exists for polynomials longer than the
+/// buffer), verified by the verifier key: the true evaluation is returned and accepted.
+pub fn c01_special_stream(rec: &mut Rec) {
+    use ark_poly_commit::streaming_kzg::CommitterKeyStream;
+    let lens: Vec<usize> = if rec.thorough() { (1..=40).chain([63, 64, 65, 129, 257]).collect() } else { vec![1, 2, 3, 4, 5, 8, 9, 16, 17, 33, 34, 65] };
+    let top = *lens.iter().max().unwrap();
+    let ck = str_key(top + 1, 3, rec.seed);
+    let vk = SVk::from(&ck);
+    let sck = CommitterKeyStream::from(&ck);
+    let r = rho_stream::<Fr381>(rec.seed, 91, top + 2);
+    rec.scope(format!("STR space-efficient prover: lengths {:?} x 3 coefficient patterns x MSM buffers {{1,2,3,8,len-1,len,2^20}} x 2 points", lens));
+    for len in lens {
+        for pat in ["dense", "lowzero", "alternating"] {
+            let id = format!("STR/stream/len={}/{}", len, pat);
+            if !rec.take(&id) {
+                continue;
+            }
+            rec.dim("scheme", "STR");
+            let mut coeffs: Vec<Fr381> = r[..len].to_vec();
+            if pat == "lowzero" && len > 2 {
+                coeffs[0] = Fr381::zero();
+                coeffs[1] = Fr381::zero();
+            }
+            if pat == "alternating" {
+                for i in (1..len.saturating_sub(1)).step_by(2) {
+                    coeffs[i] = Fr381::zero();
+                }
+            }
+            let p = UP::<Fr381>::from_coefficients_slice(&coeffs);
+            let rev: Vec<Fr381> = coeffs.iter().rev().cloned().collect();
+            let stream = rev.as_slice();
+            let comm = match catch(|| sck.commit(&stream)) {
+                Ok(c) => c,
+                Err(e) => {
+                    rec.violation("C01/STR/stream-commit/in-domain", &id, format!("panicked: {}", e));
+                    continue;
+                }
+            };
+            let mut bufs = vec![1usize, 2, 3, 8, len.saturating_sub(1).max(1), len, 1 << 20];
+            bufs.sort();
+            bufs.dedup();
+            for z in [r[top], r[top + 1]] {
+                for b in bufs.iter() {
+                    rec.count_points(1);
+                    rec.op(2);
+                    match catch(|| sck.open(&stream, &z, *b)) {
+                        Ok((v, pf)) => {
+                            if v != p.evaluate(&z) {
+                                rec.violation("C01/STR/stream-open/evaluation", &id, format!("buffer {}: the space-efficient prover returned a wrong evaluation", b));
+                            }
+                            let d = str_verify(&vk, &comm, &z, &p.evaluate(&z), &pf);
+                            rec.class(d.class());
+                            rec.obs(&format!("STR|stream|{}|{}", (*b).min(len + 1) >= len, d.class()));
+                            if !d.accepted() {
+                                rec.violation("C01/STR/verify/stream-honest", &id, format!("buffer {}: the space-efficient prover's proof of the true evaluation is not accepted: {}", b, d.short()));
+                            }
+                        }
+                        Err(e) => rec.violation("C01/STR/stream-open/in-domain", &id, format!("buffer {}: panicked: {}", b, e)),
+                    }
+                }
+            }
+            rec.sample("STR-stream", id.clone());
+        }
+    }
+}
